@@ -178,6 +178,20 @@ CHECKS['C17'] = (
     'known_findings.json); such cases are re-judged on an EOL-compensated input so that other differences are not masked.',
     'DESIGN.md 3/C17')
 
+CHECKS['C11'] = (
+    'exhaustive enumeration of site graphs (graph atlas, 3-5 sites) x source/destination pairs x ordered include lists x hop '
+    'types through the real route computation, against brute-force enumeration of all simple paths',
+    'For every connected graph on 3-5 ROADM sites (quick: all on 3-4 and a quarter of those on 5) x 3 length assignments (ties, '
+    'distinct, long direct link) x link styles (plain, in-line amplifier, fused, mixed), every ordered transceiver pair and '
+    'every ordered include list of <= 2 (thorough: 3) nodes from {ROADMs, fibres / amplifiers / fused of two links, auto-inserted '
+    'amplifiers, an unknown name} with all-STRICT, all-LOOSE and mixed hop types is routed by requests_from_json, '
+    'correct_json_route_list and compute_path_dsjctn on the designed network with its OMS list. The route must start/end at the '
+    'right transceivers, follow existing links, repeat nothing, cross the include nodes in order and be the shortest such route; '
+    'unsatisfiable STRICT lists must block with NO_PATH_WITH_CONSTRAINT, unsatisfiable LOOSE lists must return the '
+    'unconstrained shortest route, unknown STRICT nodes raise ServiceError; the reverse path mirrors the ROADM sequence.',
+    'Jointly unsatisfiable mixed LOOSE/STRICT lists are unjudged; parallel links are not in the alphabet.',
+    'DESIGN.md 3/C11')
+
 ALL = [f'C{i:02d}' for i in range(1, 21)]
 NOT_BUILT_REASON = 'check not built yet in this round (planned, see DESIGN.md section 3); not claimed until it runs'
 
